@@ -390,6 +390,7 @@ resolve_encoding_stub = Fn(FIN, "resolve_encoding", slot="resolver", mode="stub"
     C("none_in_last_pass_is_loud", "res is Ok && res->Ok_0 is None && ctx.is_last_iteration ==> final(report).msgs() > old(report).msgs()"),
     C("none_while_guessing_is_clean", "res is Ok && res->Ok_0 is None && !ctx.is_last_iteration ==> final(report).msgs() == old(report).msgs() && final(report).errors() == old(report).errors()"),
     C("some_is_nonempty", "res is Ok && res->Ok_0 is Some ==> res->Ok_0->0@.len() >= 1"),
+    C("chosen_recorded", "res is Ok && res->Ok_0 is Some ==> chosen_encoding(final(report)) == *res->Ok_0->0@[0].1"),
     C("parents_balanced", "final(report).parents() == old(report).parents()"),
 ])
 INS = "final(defs).instructions.defs@[(ast_instr.item_ref->0).0 as int]->0"
@@ -400,6 +401,7 @@ resolve_instruction = Fn(
     ensures=pass_contract() + [
         C("resolved_means_unchanged_unless_frozen", "res == %s && !%s.resolved ==> %s.encoding.val() == %s.encoding.val()" % (STABLE, INS, INS, OINS), ["C02"]),
         C("frozen_only_in_first_pass_when_statically_known", "%s.resolved && !%s.resolved ==> ctx.is_first_iteration && opts.optimize_statically_known && %s.encoding_statically_known" % (INS, OINS, OINS), ["C02", "C08"]),
+        C("stores_the_chosen_encoding_with_its_size", "res == %s && !%s.resolved ==> %s.encoding == chosen_encoding(final(report))" % (STABLE, OINS, INS), ["C02", "C01"]),
     ],
     closures={1: ("|e: &Vec<(usize, &util::BigInt)>| -> (r: bool)\n            ensures r == (e@.len() == 1)\n       ", ""),
               2: ("|e: &Vec<(usize, &util::BigInt)>| -> (r: util::BigInt)\n            requires e@.len() >= 1\n            ensures r == *e@[0].1\n       ", "")},
